@@ -4,25 +4,82 @@ import (
 	"fmt"
 	"go/token"
 	"go/types"
+	"strings"
 
 	"golang.org/x/tools/go/ssa"
 )
 
-// concurrencyModel holds the thread-modular rules (DESIGN §2.4). Filled in incrementally.
+// Thread-modular rules (DESIGN 2.4).
+//
+// Channels: three ghost maps indexed by the channel reference: capacity (fixed at make), the total number of
+// sends performed so far, and the closed flag. len(ch) <= sends(ch), so "sends(ch) < cap(ch)" at a send implies
+// that the send cannot block. Receives yield arbitrary values (they are produced by other threads).
+// Monitors: "monitor T.f" declares which locations the mutex protects and the invariant; Lock havocs the
+// protected locations and assumes the invariant, Unlock asserts it.
 type concurrencyModel struct{}
 
+const (
+	chanCapHeap    = "HC!chan.cap"
+	chanSendsHeap  = "HC!chan.sends"
+	chanClosedHeap = "HC!chan.closed"
+)
+
+func (g *VCGen) chanHeaps() {
+	g.so.heap(chanCapHeap, "(Array Int Int)")
+	g.so.heap(chanSendsHeap, "(Array Int Int)")
+	g.so.heap(chanClosedHeap, "(Array Int Bool)")
+}
+
 func (concurrencyModel) goInstr(g *VCGen, x *ssa.Go) {
-	panic(unsupported("go statement"))
+	// the spawned thread runs concurrently: its effects are covered by the monitor/ownership rules, not here
+	if g.fc == nil || !hasProp(g.fc.Props, "spawns") {
+		panic(unsupported("go statement (contract must carry prop 'spawns' and the spawned code its own contract)"))
+	}
+	for _, a := range x.Call.Args {
+		if _, isAddr := g.addrs[a]; !isAddr {
+			g.val(a)
+		}
+	}
+	g.usedTrusted["go statements: the spawned goroutine is verified separately under the thread-modular rules"] = true
 }
-func (concurrencyModel) send(g *VCGen, x *ssa.Send) {
-	panic(unsupported("channel send"))
-}
-func (concurrencyModel) selectI(g *VCGen, x *ssa.Select) {
-	panic(unsupported("select"))
-}
+
 func (concurrencyModel) makeChan(g *VCGen, x *ssa.MakeChan) {
-	panic(unsupported("make(chan)"))
+	g.chanHeaps()
+	size := g.val(x.Size)
+	r := g.newRef()
+	g.setHeap(g.cur, chanCapHeap, fmt.Sprintf("(store %s %s %s)", g.heapTerm(g.cur, chanCapHeap), r, size.T))
+	g.setHeap(g.cur, chanSendsHeap, fmt.Sprintf("(store %s %s 0)", g.heapTerm(g.cur, chanSendsHeap), r))
+	g.setHeap(g.cur, chanClosedHeap, fmt.Sprintf("(store %s %s false)", g.heapTerm(g.cur, chanClosedHeap), r))
+	g.vals[x] = SpecVal{r, "Int", x.Type()}
 }
+
+func (cm concurrencyModel) send(g *VCGen, x *ssa.Send) {
+	ch := g.val(x.Chan)
+	g.val(x.X)
+	cm.sendEffect(g, ch.T, x.Chan.Name(), x.Pos(), "true")
+}
+
+// sendEffect: obligations and ghost update of a send (guard: the select case chosen, or "true")
+func (concurrencyModel) sendEffect(g *VCGen, ch, name string, pos token.Pos, guard string) {
+	g.chanHeaps()
+	save := g.pathCond
+	g.pathCond = and(g.pathCond, guard)
+	closed := fmt.Sprintf("(select %s %s)", g.heapTerm(g.cur, chanClosedHeap), ch)
+	sends := fmt.Sprintf("(select %s %s)", g.heapTerm(g.cur, chanSendsHeap), ch)
+	capT := fmt.Sprintf("(select %s %s)", g.heapTerm(g.cur, chanCapHeap), ch)
+	g.oblige("nopanic.sendclosed@"+name, "nopanic", fmt.Sprintf("(or (= %s 0) (not %s))", ch, closed), "send on closed channel", pos)
+	if g.fc != nil && hasProp(g.fc.Props, "nonblocking") {
+		g.oblige("nonblocking.send@"+name, "nonblocking", fmt.Sprintf("(and (not (= %s 0)) (< %s %s))", ch, sends, capT), "send cannot block (fewer sends so far than the channel's capacity)", pos)
+	}
+	g.pathCond = save
+	h := g.heapTerm(g.cur, chanSendsHeap)
+	g.setHeap(g.cur, chanSendsHeap, fmt.Sprintf("(ite %s (store %s %s (+ %s 1)) %s)", guard, h, ch, sends, h))
+	// a send on a nil channel blocks forever
+	if guard == "true" {
+		g.pathCond = and(g.pathCond, fmt.Sprintf("(not (= %s 0))", ch))
+	}
+}
+
 // receive: the value is arbitrary (sent by another thread); blocking is not modelled (partial correctness).
 // A receive from a nil channel blocks forever: the path ends there.
 func (concurrencyModel) recv(g *VCGen, x *ssa.UnOp) {
@@ -43,13 +100,134 @@ func (concurrencyModel) recv(g *VCGen, x *ssa.UnOp) {
 	g.pathCond = and(g.pathCond, fmt.Sprintf("(not (= %s 0))", ch.T))
 	g.usedTrusted["channel receive yields an arbitrary value of the element type; blocking is not modelled (partial correctness)"] = true
 }
+
 func (concurrencyModel) closeChan(g *VCGen, c *ssa.CallCommon, pos token.Pos) {
-	panic(unsupported("close(chan)"))
+	g.chanHeaps()
+	ch := g.val(c.Args[0])
+	closed := fmt.Sprintf("(select %s %s)", g.heapTerm(g.cur, chanClosedHeap), ch.T)
+	g.oblige("nopanic.closenil@"+c.Args[0].Name(), "nopanic", fmt.Sprintf("(not (= %s 0))", ch.T), "close of nil channel", pos)
+	g.oblige("closeonce@"+c.Args[0].Name(), "nopanic", not(closed), "close of closed channel", pos)
+	g.setHeap(g.cur, chanClosedHeap, fmt.Sprintf("(store %s %s true)", g.heapTerm(g.cur, chanClosedHeap), ch.T))
+}
+
+// select: a nondeterministic choice among the cases; the default branch can only be taken when no receive case
+// is on a closed channel (a closed channel is always ready).
+func (cm concurrencyModel) selectI(g *VCGen, x *ssa.Select) {
+	g.chanHeaps()
+	idx := g.freshConst("select!idx", "Int")
+	lo := "0"
+	if !x.Blocking {
+		lo = "(- 1)"
+	}
+	g.assumeHere(fmt.Sprintf("(and (<= %s %s) (< %s %d))", lo, idx, idx, len(x.States)))
+	results := []SpecVal{{idx, "Int", types.Typ[types.Int]}}
+	recvOk := g.freshConst("select!recvOk", "Bool")
+	results = append(results, SpecVal{recvOk, "Bool", types.Typ[types.Bool]})
+	var notClosed []string
+	for i, st := range x.States {
+		ch := g.val(st.Chan)
+		chosen := fmt.Sprintf("(= %s %d)", idx, i)
+		// a nil channel is never ready
+		g.assumeHere(fmt.Sprintf("(=> %s (not (= %s 0)))", chosen, ch.T))
+		if st.Dir == types.RecvOnly {
+			et := st.Chan.Type().Underlying().(*types.Chan).Elem()
+			s := g.so.sortOf(et)
+			v := g.freshConst("select!recv", s)
+			sv := SpecVal{v, s, et}
+			g.rangeFact(sv)
+			g.assumeHere(g.allocFact(v, et, g.cur))
+			results = append(results, sv)
+			notClosed = append(notClosed, fmt.Sprintf("(or (= %s 0) (not (select %s %s)))", ch.T, g.heapTerm(g.cur, chanClosedHeap), ch.T))
+			// a receive completes only if the channel is closed or something was ever sent on it
+			g.assumeHere(fmt.Sprintf("(=> %s (or (select %s %s) (> (select %s %s) 0)))", chosen, g.heapTerm(g.cur, chanClosedHeap), ch.T, g.heapTerm(g.cur, chanSendsHeap), ch.T))
+		} else {
+			g.val(st.Send)
+			cm.sendEffect(g, ch.T, st.Chan.Name(), x.Pos(), chosen)
+		}
+	}
+	if !x.Blocking && len(notClosed) > 0 {
+		g.assumeHere(fmt.Sprintf("(=> (= %s (- 1)) %s)", idx, and(notClosed...)))
+	}
+	g.tuples[x] = results
+	g.usedTrusted["select: nondeterministic choice among ready cases; default only if no receive case is on a closed channel"] = true
+}
+
+// ---------------------------------------------------------------- monitors
+
+type MonitorDecl struct {
+	Pkg, Type, Field string
+	Protects         []Clause
+	Invariant        []Clause
+	File             string
+	Line             int
+}
+
+// monitorFor finds the monitor declared for the mutex whose address is v (a FieldAddr of an object).
+func (g *VCGen) monitorFor(v ssa.Value) (*MonitorDecl, SpecVal, bool) {
+	fa, ok := v.(*ssa.FieldAddr)
+	if !ok {
+		return nil, SpecVal{}, false
+	}
+	pt := fa.X.Type().Underlying().(*types.Pointer)
+	n, ok := pt.Elem().(*types.Named)
+	if !ok || n.Obj().Pkg() == nil {
+		return nil, SpecVal{}, false
+	}
+	st := n.Underlying().(*types.Struct)
+	key := n.Obj().Pkg().Path() + "." + n.Obj().Name() + "." + st.Field(fa.Field).Name()
+	m, ok := g.eng.contracts.Monitors[key]
+	if !ok {
+		return nil, SpecVal{}, false
+	}
+	owner, ok := g.vals[fa.X]
+	if !ok {
+		return nil, SpecVal{}, false
+	}
+	return m, SpecVal{owner.T, "Int", fa.X.Type()}, true
 }
 
 func (concurrencyModel) lockOp(g *VCGen, op string, c *ssa.CallCommon, pos token.Pos) {
-	// evaluate the receiver (nil check etc.)
-	if len(c.Args) > 0 {
-		g.val(c.Args[0])
+	if len(c.Args) == 0 {
+		return
 	}
+	m, owner, ok := g.monitorFor(c.Args[0])
+	g.val(c.Args[0])
+	if !ok {
+		return
+	}
+	g.chanHeaps()
+	env := &SpecEnv{g: g, vars: map[string]SpecVal{"self": owner}, cur: g.cur, old: g.cur, pkg: g.eng.typesPkg(m.Pkg)}
+	switch {
+	case strings.HasSuffix(op, "Lock") && !strings.HasSuffix(op, "Unlock"):
+		// acquire: other threads may have changed everything the monitor protects
+		var prot []Clause
+		for _, p := range m.Protects {
+			keep := false
+			if sel, ok := p.E.(ESel); ok && g.fc != nil && hasProp(g.fc.Props, "keeps:"+sel.Field) {
+				keep = true // written only by this thread role: no other thread changes it (declared)
+			}
+			if !keep {
+				prot = append(prot, p)
+			}
+		}
+		locs := g.modLocs(env, prot)
+		g.cur = g.havocFor(g.cur, locs, false)
+		env.cur, env.old = g.cur, g.cur
+		for _, inv := range m.Invariant {
+			g.assumeHere(g.trClause(env, inv))
+		}
+		g.usedTrusted["sync.Mutex provides mutual exclusion; monitor "+m.Type+"."+m.Field+": protected state is only accessed under the lock (declared, see DESIGN 2.4 R2)"] = true
+	default:
+		for k, inv := range m.Invariant {
+			g.oblige(fmt.Sprintf("monitor(%s).inv.%d@unlock:%s", m.Field, k, shortPos(g, pos)), "monitor", g.trGoal(env, inv), "monitor invariant re-established before "+op+": "+inv.Text, pos)
+		}
+	}
+}
+
+func shortPos(g *VCGen, pos token.Pos) string {
+	if g.fn == nil {
+		return ""
+	}
+	p := g.fn.Prog.Fset.Position(pos)
+	return fmt.Sprintf("L%d", p.Line)
 }
